@@ -1,15 +1,119 @@
 (* C20 -- inverter objects are independent; returned values do not change afterwards.
-   KNOWN FINDING (reproduced on every run by the two-object scenarios): the eco-mode / schedule sensor definitions are
-   class-level objects mutated by read_value and shared by all inverter objects.  What the model provides: decoding is a
-   function of the response bytes only (no hidden state), which is what the implementation would satisfy if the decoded
-   group were a fresh value; every other interference between two objects is searched for by the interleaving scenarios. *)
+   The property is FALSE for the code as it is (two known findings); here it is decided on a model of two ET objects in one process
+   (Model/TwoObj.v) whose only shared component is the set of Schedule definition objects -- an inventory re-established from the
+   source on every run (tools/sv2v.py, C20_shared_state_inventory) -- and whose programs are generated from the source:
+   the part of the property that holds is proved for every interleaving, the part that fails is proved to fail, with the witnesses
+   of the known findings. *)
 From Coq Require Import ZArith List Bool String.
-From GW Require Import Prelude PyStr PyFloat Sensors SensorProofs ProtoGen.
+From GW Require Import Prelude PyStr PyFloat Sensors SensorProofs Settings TablesGen SettingsGen SchedDef SharedGen SchedDefRefine
+  Modes ModesGen ModesInst ModesProofs TwoObj TwoObjInst TwoObjProofs ProtoGen.
 Import ListNotations.
 Open Scope Z_scope.
 
-(* the decoded value of ANY sensor is a function of the response bytes and the sensor's static definition *)
+(* whatever an object's own calls are, it returns the same results and transmits the same register requests as when its calls run
+   alone, provided the calls on the other object do not touch a schedule definition (read / write an eco-mode or peak-shaving group,
+   set ECO_CHARGE / ECO_DISCHARGE, get_operation_mode): for every interleaving, all register contents, any state of the definitions *)
+Theorem C20_untouching_neighbour_does_not_interfere : forall c who l w, neighbour_untouching c who l ->
+  mine who (snd (run c w l)) = alone c w who l.
+Proof. exact untouching_neighbour_does_not_interfere. Qed.
+
+Theorem C20_schedule_free_interleavings_are_independent : forall c l w, (forall who o, In (who, o) l -> touches c o = false) ->
+  mine false (snd (run c w l)) = alone c w false l /\ mine true (snd (run c w l)) = alone c w true l.
+Proof. exact schedule_free_interleavings_are_independent. Qed.
+
+(* which calls that is, for the generated tables and step lists *)
+Theorem C20_touching_settings : map s_id (filter is_sched et_settings) = ["peak_shaving_mode"; "eco_mode_1"; "eco_mode_2"; "eco_mode_3"; "eco_mode_4"]%string.
+Proof. exact touching_settings. Qed.
+
+Theorem C20_touching_modes : forall a b m p soc,
+  touches (et_tctx a b) (OSetMode m p soc) = match m with MEcoCharge | MEcoDischarge => true | _ => false end.
+Proof. exact touching_modes. Qed.
+
+(* non-vacuity of the hypothesis *)
+Theorem C20_untouching_example :
+  neighbour_untouching (et_tctx false true) false
+    [(false, OSetMode MEcoCharge 50 80); (true, OSetMode MGeneral 0 0); (true, OWrite "work_mode" 2); (false, OGetMode);
+     (true, ORead "grid_export_limit"); (false, ORead "eco_mode_1"); (true, OSetMode MEco 0 0); (false, OWriteGroup "eco_mode_2" [0; 0; 23; 59; 255; 127; 255; 206; 0; 80; 0; 0])].
+Proof. exact untouching_example. Qed.
+
+(* KNOWN FINDING shared-eco-mode-definition, as a theorem: A (745 platform) reads its eco_mode_1, then B (platform 205, unreadable
+   first group) sets ECO_CHARGE(50, 80): B transmits other register values than when it runs alone *)
+Theorem C20_requests_differ_refuted :
+  let c := et_tctx true false in
+  let l := [(false, ORead "eco_mode_1"%string); (true, OSetMode MEcoCharge 50 80)] in
+  mine true (snd (run c w_refute l)) <> alone c w_refute true l.
+Proof. exact requests_differ_refuted. Qed.
+
+Theorem C20_requests_differ_witness :
+  let c := et_tctx true false in
+  let l := [(false, ORead "eco_mode_1"%string); (true, OSetMode MEcoCharge 50 80)] in
+  (exists o rest, mine true (snd (run c w_refute l)) = [(o, TxRead 47547 6 :: TxWrite 47547 [0; 5947; 63871; 65036; 80; 4095] :: rest)]) /\
+  (exists o rest, alone c w_refute true l = [(o, TxRead 47547 6 :: TxWrite 47547 [0; 5947; 65407; 65486; 80; 0] :: rest)]).
+Proof. exact requests_differ_witness. Qed.
+
+(* KNOWN FINDING returned-eco-value-changes, as a theorem: the object handed to the caller shows other content after a later read of the
+   same setting on the other object -- or on the same object *)
+Theorem C20_returned_value_changes_refuted :
+  let c := et_tctx true false in
+  let w := mkW (w_a w_refute) (rf_of [(47547, [0; 0; 23; 59; 255; 127; 0; 50; 0; 100; 0; 0])]) defs0 in
+  let r := run c w [(false, ORead "eco_mode_1"%string); (true, ORead "eco_mode_1"%string)] in
+  match snd r with
+  | (_, (o, _)) :: _ => shown o <> None /\ deref (fst r) o <> shown o
+  | [] => False end.
+Proof. exact returned_value_changes_refuted. Qed.
+
+Theorem C20_returned_value_changes_same_object :
+  let c := et_tctx true false in
+  let r := run c w_refute [(false, ORead "eco_mode_1"%string); (false, OSetMode MEcoDischarge 30 100); (false, ORead "eco_mode_1"%string)] in
+  match snd r with
+  | (_, (o, _)) :: _ => shown o <> None /\ deref (fst r) o <> shown o
+  | [] => False end.
+Proof. exact returned_value_changes_same_object. Qed.
+
+(* what objects of one process share, read from the current source: no class-level container, no mutable default, no memoisation; one
+   global counter (the Modbus/TCP transaction id); per-object protocol state; four self-mutating sensor definition classes, whose instances
+   in the class-level tables are exactly the Schedule / EcoModeV1 rows *)
+Theorem C20_shared_state_inventory :
+  class_level_containers = [] /\ mutable_defaults = [] /\ caching_decorators = [] /\
+  globals_written = ["protocol._modbus_tcp_tx"%string] /\
+  suspicious_mutations = ["Inverter.set_keep_alive: self._protocol.keep_alive = .."%string; "ProtocolCommand.execute: protocol._retry = .."%string] /\
+  self_mutating_definition_classes = ["EcoModeV1"; "EcoModeV2"; "PeakShavingMode"; "Schedule"]%string /\
+  mutable_rows =
+    rows_of "ET" [ET_all_sensors; ET_all_sensors_battery; ET_all_sensors_battery2; ET_all_sensors_meter; ET_all_sensors_mppt; ET_all_settings; ET_settings_arm_fw_19; ET_settings_arm_fw_22] ++
+    rows_of "DT" [DT_all_sensors; DT_all_sensors_meter; DT_all_settings; DT_settings_single_phase; DT_settings_three_phase] ++
+    rows_of "ES" [ES_sensors; ES_all_settings; ES_settings_arm_fw_14].
+Proof. exact shared_state_inventory. Qed.
+
+(* the self-mutating read_value of the two definition classes, as translated from the current source, computes the value of the sensor model
+   (and a read that fails half-way leaves the attributes assigned so far: that is what run_rv returns as first component) *)
+Theorem C20_schedule_read_value_is_the_model : forall d data p,
+  match run_rv schedule_read_value d data p with
+  | (d', Ok _) => read_schedule data p = Ok (VSched (sched_of d'))
+  | (_, Exc e) => read_schedule data p = Exc e
+  end.
+Proof. exact schedule_read_value_refined. Qed.
+
+Theorem C20_eco_v1_read_value_is_the_model : forall d data p, d_soc d = Some 100 -> d_month_bits d = None -> d_months d = None -> d_ty d = 0 ->
+  match run_rv eco_v1_read_value d data p with
+  | (d', Ok _) => read_eco_v1 data p = Ok (VSched (sched_of d'))
+  | (_, Exc e) => read_eco_v1 data p = Exc e
+  end.
+Proof. exact eco_v1_read_value_refined. Qed.
+
+(* every other decoded value is an immutable function of the response bytes and the sensor's static definition *)
 Theorem C20_decoding_has_no_hidden_state : forall d pos s1 s2, s1 = s2 -> sensor_read d pos s1 = sensor_read d pos s2.
 Proof. exact (fun d pos s1 s2 H => f_equal (sensor_read d pos) H). Qed.
 
+Print Assumptions C20_untouching_neighbour_does_not_interfere.
+Print Assumptions C20_schedule_free_interleavings_are_independent.
+Print Assumptions C20_touching_settings.
+Print Assumptions C20_touching_modes.
+Print Assumptions C20_untouching_example.
+Print Assumptions C20_requests_differ_refuted.
+Print Assumptions C20_requests_differ_witness.
+Print Assumptions C20_returned_value_changes_refuted.
+Print Assumptions C20_returned_value_changes_same_object.
+Print Assumptions C20_shared_state_inventory.
+Print Assumptions C20_schedule_read_value_is_the_model.
+Print Assumptions C20_eco_v1_read_value_is_the_model.
 Print Assumptions C20_decoding_has_no_hidden_state.
